@@ -143,6 +143,9 @@ func (g *GroupWorld) makeNode(i *Inst, created time.Time) *v1.Node {
 	if s.Chance(0.3) {
 		n.Annotations = map[string]string{"node.alpha.kubernetes.io/ttl": "0"}
 	}
+	if mem == 8053063680 && s.Chance(0.5) { // the same amount as an in-process parsed fractional binary quantity
+		n.Status.Allocatable[v1.ResourceMemory] = resource.MustParse("7.5Gi")
+	}
 	if s.Chance(g.w.prof.PZeroCreation) {
 		n.CreationTimestamp = metav1.Time{}
 		g.w.stats.Shapes["node-zero-creation"]++
@@ -657,6 +660,18 @@ func (g *GroupWorld) tick() {
 		if w.cfg.OddObjects && s.Chance(0.1) {
 			g.oddPod(s)
 		}
+		if s.Chance(0.06) { // in-place pod resize: same pod (same UID), new requests
+			if pods := g.groupPods(); len(pods) > 0 {
+				p := pods[s.Intn(len(pods))]
+				if len(p.Spec.Containers) > 0 {
+					np := p.DeepCopy()
+					rl := v1.ResourceList{v1.ResourceCPU: resource.MustParse(cpuForms[s.Intn(len(cpuForms))]), v1.ResourceMemory: resource.MustParse(memForms[s.Intn(len(memForms))])}
+					np.Spec.Containers[0].Resources.Requests = rl
+					w.kube.putPod(np, "")
+					w.stats.World["pod-resized-in-place"]++
+				}
+			}
+		}
 	}
 	g.reconcile()
 	g.schedule()
@@ -775,7 +790,7 @@ func (g *GroupWorld) operatorAction(s *Stream, prefer string) {
 			if c.Annotations == nil {
 				c.Annotations = map[string]string{}
 			}
-			c.Annotations[noDelete] = []string{"true", "keep", "", "false"}[v%4]
+			c.Annotations[noDelete] = []string{"true", "keep", "", "false", "\nheld by ops", " ", "\r\nticket-123", "line1\nline2"}[v%8]
 		})
 	case "unannotate":
 		for _, x := range g.groupNodes() {
